@@ -183,7 +183,8 @@ where
             if server.is_none() {
                 // No replier bound: there is nothing to wait for on that side
                 server_pending = true;
-            } else {
+            } else if buffered_rep.is_none() {
+                // (only take the next reply once the previous one has been handed on)
                 let st = &mut server.as_mut().as_pin_mut().unwrap().1;
 
                 match st.poll_next_unpin(cx) {
